@@ -267,6 +267,17 @@ Definition prop_bf (args : list bytes) : bytes :=
           | _ => spec_bf s alt prov (jN (jfield "vk" (s_json s)) =? 1) (jZ (jfield "limit" (s_json s)))
                          (jNs (jfield "servers" (s_json s))) [] false
           end in
-        verdict (bs "ids=" ++ pNs "," (sort_N (map eid got)) ++ bs " n=" ++ pN (N.of_nat (length got))
-                 ++ (if err then bs " lasterr" else bs " noerr")) obs
+        let v := verdict (bs "ids=" ++ pNs "," (sort_N (map eid got)) ++ bs " n=" ++ pN (N.of_nat (length got))
+                 ++ (if err then bs " lasterr" else bs " noerr")) obs in
+        (* Finding F86 (recorded, not repaired): the code deliberately passes on events whose
+           signature check failed, and LoadAndVerify never ran the auth checks on them. The
+           property's title asks that only events passing the signature AND auth checks leave. *)
+        let unsigned := filter (fun e => match spec_class s alt prov e with LSig => true | _ => false end) got in
+        match unsigned with
+        | [] => v
+        | _ => if bytes_eqb v (bs "ok")
+               then bs "FAIL-F86 returned although the signature check failed (never auth-checked): ids="
+                    ++ pNs "," (sort_N (map eid unsigned))
+               else v
+        end
     end).
